@@ -234,15 +234,17 @@ func (ab *dsAddrBook) Close() error {
 // datastore upon a miss, and returning a newly initialized record if the peer doesn't exist.
 //
 // loadRecord calls clean() on an existing record before returning it. If the record changes
-// as a result and the update argument is true, the resulting state is saved in the datastore.
+// as a result, the resulting state is saved in the datastore: the GC trusts a cached record
+// that has nothing left to clean to be what the datastore holds, so a record cleaned only in
+// memory would keep its expired addresses in the datastore for ever.
 //
 // If the cache argument is true, the record is inserted in the cache when loaded from the datastore.
-func (ab *dsAddrBook) loadRecord(id peer.ID, cache bool, update bool) (pr *addrsRecord, err error) {
+func (ab *dsAddrBook) loadRecord(id peer.ID, cache bool) (pr *addrsRecord, err error) {
 	if pr, ok := ab.cache.Get(id); ok {
 		pr.Lock()
 		defer pr.Unlock()
 
-		if pr.clean(ab.clock.Now()) && update {
+		if pr.clean(ab.clock.Now()) {
 			err = pr.flush(ab.ds)
 		}
 		return pr, err
@@ -261,7 +263,7 @@ func (ab *dsAddrBook) loadRecord(id peer.ID, cache bool, update bool) (pr *addrs
 			return nil, err
 		}
 		// this record is new and local for now (not in cache), so we don't need to lock.
-		if pr.clean(ab.clock.Now()) && update {
+		if pr.clean(ab.clock.Now()) {
 			err = pr.flush(ab.ds)
 		}
 	default:
@@ -369,7 +371,7 @@ func (ab *dsAddrBook) supersededSignedAddrs(p peer.ID, newAddrs []ma.Multiaddr) 
 		newSet[string(a.Bytes())] = struct{}{}
 	}
 
-	pr, err := ab.loadRecord(p, true, false)
+	pr, err := ab.loadRecord(p, true)
 	if err != nil {
 		return nil
 	}
@@ -404,7 +406,7 @@ func ttlIsConnected(ttl time.Duration) bool {
 }
 
 func (ab *dsAddrBook) latestPeerRecordSeq(p peer.ID) uint64 {
-	pr, err := ab.loadRecord(p, true, false)
+	pr, err := ab.loadRecord(p, true)
 	if err != nil {
 		// We ignore the error because we don't want to fail storing a new record in this
 		// case.
@@ -429,7 +431,7 @@ func (ab *dsAddrBook) storeSignedPeerRecord(p peer.ID, envelope *record.Envelope
 	// this has to be done after we add the addresses, since if
 	// we try to flush a datastore record with no addresses,
 	// it will just get deleted
-	pr, err := ab.loadRecord(p, true, false)
+	pr, err := ab.loadRecord(p, true)
 	if err != nil {
 		return err
 	}
@@ -448,7 +450,7 @@ func (ab *dsAddrBook) storeSignedPeerRecord(p peer.ID, envelope *record.Envelope
 // given peer id, if one exists.
 // Returns nil if no signed PeerRecord exists for the peer.
 func (ab *dsAddrBook) GetPeerRecord(p peer.ID) *record.Envelope {
-	pr, err := ab.loadRecord(p, true, false)
+	pr, err := ab.loadRecord(p, true)
 	if err != nil {
 		log.Error("unable to load record for peer", "peer", p, "err", err)
 		return nil
@@ -484,7 +486,7 @@ func (ab *dsAddrBook) SetAddrs(p peer.ID, addrs []ma.Multiaddr, ttl time.Duratio
 // UpdateAddrs will update any addresses for a given peer and TTL combination to
 // have a new TTL.
 func (ab *dsAddrBook) UpdateAddrs(p peer.ID, oldTTL time.Duration, newTTL time.Duration) {
-	pr, err := ab.loadRecord(p, true, false)
+	pr, err := ab.loadRecord(p, true)
 	if err != nil {
 		log.Error("failed to update ttls for peer", "peer", p, "err", err)
 		return
@@ -509,7 +511,7 @@ func (ab *dsAddrBook) UpdateAddrs(p peer.ID, oldTTL time.Duration, newTTL time.D
 
 // Addrs returns all of the non-expired addresses for a given peer.
 func (ab *dsAddrBook) Addrs(p peer.ID) []ma.Multiaddr {
-	pr, err := ab.loadRecord(p, true, true)
+	pr, err := ab.loadRecord(p, true)
 	if err != nil {
 		log.Warn("failed to load peerstore entry for peer while querying addrs", "peer", p, "err", err)
 		return nil
@@ -563,7 +565,7 @@ func (ab *dsAddrBook) setAddrs(p peer.ID, addrs []ma.Multiaddr, ttl time.Duratio
 		return nil
 	}
 
-	pr, err := ab.loadRecord(p, true, false)
+	pr, err := ab.loadRecord(p, true)
 	if err != nil {
 		return fmt.Errorf("failed to load peerstore entry for peer %s while setting addrs, err: %v", p, err)
 	}
@@ -703,7 +705,7 @@ func deleteInPlace(s []*pb.AddrBookRecord_AddrEntry, addrs []ma.Multiaddr) []*pb
 }
 
 func (ab *dsAddrBook) deleteAddrs(p peer.ID, addrs []ma.Multiaddr) (err error) {
-	pr, err := ab.loadRecord(p, false, false)
+	pr, err := ab.loadRecord(p, false)
 	if err != nil {
 		return fmt.Errorf("failed to load peerstore entry for peer %v while deleting addrs, err: %v", p, err)
 	}
